@@ -1,3 +1,3 @@
 /-- translated from a fragment of `read_block` (dfs/dfs_volume.cc) -/
 def volume_access_beyond (len : Nat) (lba : Nat) : Bool :=
-  (decide (lba > len))
+  (decide (lba >= len))
